@@ -25,7 +25,7 @@ theorem merge_nil_right (a : Entries) : merge a [] = a := by cases a <;> simp [m
 theorem merge_cons_lt {e : Key × Val} {la lb : Entries} (h : ∀ x ∈ lb, ltB e.1 x.1 = true) :
     merge (e :: la) lb = e :: merge la lb := by
   cases lb with
-  | nil => simp [merge, merge_nil_right]
+  | nil => simp [merge_nil_right]
   | cons b rb =>
     have := ltB_iff.mp (h b (by simp))
     simp [merge, this]
